@@ -36,7 +36,7 @@ def levels(tier):
          "orders": 6},
         {"name": "subset-n1", "n": 1, "prelude": TPL, "subset": 2, "alphabet": ["links", "we", "addprefix"], "links_batch": 1, "defaults": ["never"], "pool": POOL5, "ks": [1, 2]},
         {"name": "tpl-n2", "n": 2, "prelude": TPL, "alphabet": ["links"], "links_batch": 1, "defaults": ["never"], "pool": POOL5, "ks": [1, 2, None]},
-        {"name": "requery-n2", "n": 2, "prelude": TPL + [["we", [[2, 5]]], ["links", [[0, 1], [1, 2], [4, 2], [3, 0]]]], "alphabet": ["addprefix", "rmprefix", "delwe"],
+        {"name": "requery-n2", "n": 2, "prelude": TPL + [["we", [[2, 5]]], ["links", [[0, 1], [1, 2], [4, 2], [3, 0]]]], "alphabet": ["addprefix", "delwe"],
          "defaults": ["never"], "pool": POOL5, "ks": [1], "requery": True},
         {"name": "n3", "n": 3, "alphabet": ["links", "we"], "links_batch": 1, "defaults": ["never"], "pool": [POOL4[0], POOL4[1], POOL4[3]], "ks": [1]},
     ]
